@@ -44,6 +44,30 @@ theorem InvQ.mem_get_lt {s : KState ℚ σ} (hi : InvQ s) (r : ResId) (e : EvId)
 
 /-! ## `InvL` -/
 
+/-- the general form: what holds a process keeps holding it -/
+theorem InvL.transfer' {g g' : Ghost} {s s' : KState ℚ σ} (hi : InvL g s)
+    (hsz : s.events.size ≤ s'.events.size)
+    (hp : ∀ p, s'.proc? p = s.proc? p)
+    (ho : ∀ p, (s'.ev p).out = none → (s.ev p).out = none)
+    (hrun : ∀ p, g.run = some p → g'.run = some p) (hlv : g'.lv = true → g.lv = true)
+    (hH : ∀ p t, Held g s p t → t < s.events.size → g'.run ≠ some p → Held g' s' p t) : InvL g' s' := by
+  constructor
+  intro hl p pr hpp hout hr
+  rw [hp] at hpp
+  obtain ⟨t, h1, h2, h3⟩ := hi.live (hlv hl) p pr hpp (ho p hout) (fun h => hr (hrun p h))
+  exact ⟨t, h1, Nat.lt_of_lt_of_le h2 hsz, hH p t h3 h2 hr⟩
+
+theorem Held.keep {g g' : Ghost} {s s' : KState ℚ σ} {p t : EvId} (h : Held g s p t) (ht : t < s.events.size)
+    (hg : g'.rem = g.rem ∧ g'.e0 = g.e0 ∧ g'.strict = g.strict)
+    (hN : ∀ e, e < s.events.size → (s.ev e).cbs = none → (s'.ev e).cbs = none)
+    (hL : ∀ e L, (s.ev e).cbs = some L → Cb.resume p ∈ L → ∃ L', (s'.ev e).cbs = some L' ∧ Cb.resume p ∈ L') :
+    Held g' s' p t := by
+  rcases h with ⟨h1, h2⟩ | ⟨L, h1, h2⟩ | ⟨h1, h2⟩
+  · exact Or.inl ⟨by rw [hg.2.1]; exact h1, by rw [hg.1]; exact h2⟩
+  · exact Or.inr (Or.inl (hL t L h1 h2))
+  · exact Or.inr (Or.inr ⟨by rw [hg.2.2]; exact h1, hN t ht h2⟩)
+
+/-- the state changes; of the ghost at most `run` and `lv` -/
 theorem InvL.transfer {g g' : Ghost} {s s' : KState ℚ σ} (hi : InvL g s)
     (hsz : s.events.size ≤ s'.events.size)
     (hp : ∀ p, s'.proc? p = s.proc? p)
@@ -51,21 +75,15 @@ theorem InvL.transfer {g g' : Ghost} {s s' : KState ℚ σ} (hi : InvL g s)
     (hrun : ∀ p, g.run = some p → g'.run = some p) (hlv : g'.lv = true → g.lv = true)
     (hN : ∀ e, e < s.events.size → (s.ev e).cbs = none → (s'.ev e).cbs = none)
     (hL : ∀ e L p, (s.ev e).cbs = some L → Cb.resume p ∈ L → g'.run ≠ some p →
-      (s'.ev e).cbs = none ∨ ∃ L', (s'.ev e).cbs = some L' ∧ Cb.resume p ∈ L') : InvL g' s' := by
-  constructor
-  intro hl p pr hpp hout hr
-  rw [hp] at hpp
-  obtain ⟨t, h1, h2, h3⟩ := hi.live (hlv hl) p pr hpp (ho p hout) (fun h => hr (hrun p h))
-  refine ⟨t, h1, Nat.lt_of_lt_of_le h2 hsz, ?_⟩
-  rcases h3 with h3 | ⟨L, h3, h4⟩
-  · exact Or.inl (hN t h2 h3)
-  · exact hL t L p h3 h4 hr
+      ∃ L', (s'.ev e).cbs = some L' ∧ Cb.resume p ∈ L')
+    (hg : g'.rem = g.rem ∧ g'.e0 = g.e0 ∧ g'.strict = g.strict := by exact ⟨rfl, rfl, rfl⟩) : InvL g' s' :=
+  hi.transfer' hsz hp ho hrun hlv (fun p t h ht hr => h.keep ht hg hN (fun e L hLe hm => hL e L p hLe hm hr))
 
 theorem InvL.congr {g : Ghost} {s s' : KState ℚ σ} (hi : InvL g s) (h : SameC s s') : InvL g s' := by
   refine hi.transfer (by rw [h.size]) h.proc (fun p hp => by rw [← h.out]; exact hp) (fun _ h => h) (fun h => h)
     (fun e _ hc => by rw [h.cbs]; exact hc) ?_
   intro e L p hL hm _
-  exact Or.inr ⟨L, by rw [h.cbs]; exact hL, hm⟩
+  exact ⟨L, by rw [h.cbs]; exact hL, hm⟩
 
 /-! ## `Inv` under the simple leaf updates -/
 
@@ -156,7 +174,7 @@ theorem Inv.setOut {g : Ghost} {s : KState ℚ σ} (hi : Inv g s) (e : EvId) (o 
       · cases hp
       · exact hp
     · intro e' L p hL hm _
-      exact Or.inr ⟨L, by rw [hcb]; exact hL, hm⟩
+      exact ⟨L, by rw [hcb]; exact hL, hm⟩
 
 /-- `succeed`/`fail`/`trigger` of an existing untriggered plain event or condition -/
 theorem Inv.trigger {g : Ghost} {s : KState ℚ σ} (hi : Inv g s) (e : EvId) (o : Outcome)
@@ -192,7 +210,6 @@ theorem Inv.addCb {g : Ghost} {s : KState ℚ σ} (hi : Inv g s) (e : EvId) (cb 
     · rename_i h; subst h; rw [hc]; rfl
     · exact hc
   · intro e' L p hL hm _
-    right
     rw [cbs_addCb]; split
     · rename_i h; subst h; rw [hL]; exact ⟨L ++ [cb], rfl, List.mem_append_left _ hm⟩
     · exact ⟨L, hL, hm⟩
@@ -210,7 +227,6 @@ theorem Inv.eraseCb_other {g : Ghost} {s : KState ℚ σ} (hi : Inv g s) (e : Ev
     · rename_i h; subst h; rw [hc]; rfl
     · exact hc
   · intro e' L p hL hm _
-    right
     rw [cbs_eraseCb]; split
     · rename_i h; subst h; rw [hL]
       exact ⟨L.erase cb, rfl, (List.mem_erase_of_ne (fun h => h1 p h.symm)).mpr hm⟩
@@ -240,7 +256,6 @@ theorem Inv.push {g : Ghost} {s s' : KState ℚ σ} (hi : Inv g s) (rec : EvRec 
       · rw [hold p h] at hpo; exact hpo
       · rw [ev_default s p h]; rfl
     · intro e L p hL hm _
-      right
       rw [hold e (lt_of_cbs_some s e L hL)]; exact ⟨L, hL, hm⟩
 
 theorem Inv.newEv {g : Ghost} {s : KState ℚ σ} (hi : Inv g s) (rec : EvRec ℚ) (L0 : List Cb)
